@@ -66,6 +66,63 @@ impl Zero for Sc {
     #[verifier::external_body] fn is_zero(&self) -> (r: bool) ensures r == s_eq(*self, s_zero()) { unimplemented!() }
 }
 impl One for Sc { #[verifier::external_body] fn one() -> (r: Sc) ensures r == s_one() { unimplemented!() } }
+
+// ---- A3: elementary functions (uninterpreted over the reals; axioms below are theorems of real analysis)
+pub uninterp spec fn r_sqrt(x: real) -> real;
+pub uninterp spec fn r_sin(x: real) -> real;
+pub uninterp spec fn r_cos(x: real) -> real;
+pub uninterp spec fn r_tan(x: real) -> real;
+pub uninterp spec fn r_asin(x: real) -> real;
+pub uninterp spec fn r_acos(x: real) -> real;
+pub uninterp spec fn r_atan(x: real) -> real;
+pub uninterp spec fn r_atan2(y: real, x: real) -> real;
+pub uninterp spec fn r_pi() -> real;
+pub uninterp spec fn r_quot(a: real, m: real) -> int;
+pub open spec fn r_abs(x: real) -> real { if x < 0real { 0real - x } else { x } }
+pub open spec fn r_min(a: real, b: real) -> real { if a < b { a } else { b } }
+pub open spec fn r_max(a: real, b: real) -> real { if a < b { b } else { a } }
+#[verifier::external_body] pub proof fn ax_sqrt(x: real) requires x >= 0real ensures r_sqrt(x) >= 0real, r_sqrt(x) * r_sqrt(x) == x {}
+#[verifier::external_body] pub proof fn ax_pi() ensures 3.14159real < r_pi(), r_pi() < 3.1416real {}
+#[verifier::external_body] pub proof fn ax_pythagoras(x: real) ensures r_sin(x) * r_sin(x) + r_cos(x) * r_cos(x) == 1real {}
+#[verifier::external_body] pub proof fn ax_sin_add(x: real, y: real) ensures r_sin(x + y) == r_sin(x) * r_cos(y) + r_cos(x) * r_sin(y) {}
+#[verifier::external_body] pub proof fn ax_cos_add(x: real, y: real) ensures r_cos(x + y) == r_cos(x) * r_cos(y) - r_sin(x) * r_sin(y) {}
+#[verifier::external_body] pub proof fn ax_sin_neg(x: real) ensures r_sin(0real - x) == 0real - r_sin(x) {}
+#[verifier::external_body] pub proof fn ax_cos_neg(x: real) ensures r_cos(0real - x) == r_cos(x) {}
+#[verifier::external_body] pub proof fn ax_trig_values() ensures r_sin(0real) == 0real, r_cos(0real) == 1real, r_sin(r_pi() / 2real) == 1real, r_cos(r_pi() / 2real) == 0real {}
+#[verifier::external_body] pub proof fn ax_tan(x: real) ensures r_tan(x) == r_sin(x) / r_cos(x) {}
+#[verifier::external_body] pub proof fn ax_asin(t: real) requires -1real <= t <= 1real ensures 0real - r_pi() / 2real <= r_asin(t) <= r_pi() / 2real, r_sin(r_asin(t)) == t {}
+#[verifier::external_body] pub proof fn ax_acos(t: real) requires -1real <= t <= 1real ensures 0real <= r_acos(t) <= r_pi(), r_cos(r_acos(t)) == t {}
+#[verifier::external_body] pub proof fn ax_atan(t: real) ensures 0real - r_pi() / 2real < r_atan(t) < r_pi() / 2real, r_tan(r_atan(t)) == t {}
+#[verifier::external_body] pub proof fn ax_atan2(y: real, x: real) ensures 0real - r_pi() <= r_atan2(y, x) <= r_pi(),
+    (x != 0real || y != 0real) ==> r_sqrt(x * x + y * y) * r_cos(r_atan2(y, x)) == x && r_sqrt(x * x + y * y) * r_sin(r_atan2(y, x)) == y {}
+#[verifier::external_body] pub proof fn ax_cos_inj(a: real, b: real) requires 0real <= a <= r_pi(), 0real <= b <= r_pi(), r_cos(a) == r_cos(b) ensures a == b {}
+#[verifier::external_body] pub proof fn ax_sin_inj(a: real, b: real) requires 0real - r_pi() / 2real <= a <= r_pi() / 2real, 0real - r_pi() / 2real <= b <= r_pi() / 2real, r_sin(a) == r_sin(b) ensures a == b {}
+#[verifier::external_body] pub proof fn ax_fmod(a: real, m: real) requires m != 0real
+    ensures a == (r_quot(a, m) as real) * m + r_rem(a, m), r_abs(r_rem(a, m)) < r_abs(m), a >= 0real ==> r_rem(a, m) >= 0real, a <= 0real ==> r_rem(a, m) <= 0real {}
+// ---- num_traits::Float / approx on the model scalar (external crates; contracts trusted: A3, A4)
+pub uninterp spec fn r_finite(x: real) -> bool;
+impl Sc {
+    #[verifier::external_body] pub fn sqrt(self) -> (r: Sc) ensures r@ == r_sqrt(self@) { unimplemented!() }
+    #[verifier::external_body] pub fn sin(self) -> (r: Sc) ensures r@ == r_sin(self@) { unimplemented!() }
+    #[verifier::external_body] pub fn cos(self) -> (r: Sc) ensures r@ == r_cos(self@) { unimplemented!() }
+    #[verifier::external_body] pub fn tan(self) -> (r: Sc) ensures r@ == r_tan(self@) { unimplemented!() }
+    #[verifier::external_body] pub fn sin_cos(self) -> (r: (Sc, Sc)) ensures r.0@ == r_sin(self@), r.1@ == r_cos(self@) { unimplemented!() }
+    #[verifier::external_body] pub fn asin(self) -> (r: Sc) ensures r@ == r_asin(self@) { unimplemented!() }
+    #[verifier::external_body] pub fn acos(self) -> (r: Sc) ensures r@ == r_acos(self@) { unimplemented!() }
+    #[verifier::external_body] pub fn atan(self) -> (r: Sc) ensures r@ == r_atan(self@) { unimplemented!() }
+    #[verifier::external_body] pub fn atan2(self, other: Sc) -> (r: Sc) ensures r@ == r_atan2(self@, other@) { unimplemented!() }
+    #[verifier::external_body] pub fn recip(self) -> (r: Sc) ensures r@ == 1real / self@ { unimplemented!() }
+    #[verifier::external_body] pub fn abs(self) -> (r: Sc) ensures r@ == r_abs(self@) { unimplemented!() }
+    #[verifier::external_body] pub fn min(self, other: Sc) -> (r: Sc) ensures r@ == r_min(self@, other@) { unimplemented!() }
+    #[verifier::external_body] pub fn max(self, other: Sc) -> (r: Sc) ensures r@ == r_max(self@, other@) { unimplemented!() }
+    #[verifier::external_body] pub fn is_finite(self) -> (r: bool) ensures r == r_finite(self@) { unimplemented!() }
+    #[verifier::external_body] pub fn const_180_over_pi() -> (r: Sc) ensures r@ == 180real / r_pi() { unimplemented!() }
+    #[verifier::external_body] pub fn const_pi_over_180() -> (r: Sc) ensures r@ == r_pi() / 180real { unimplemented!() }
+    #[verifier::external_body] pub fn const_two_pi() -> (r: Sc) ensures r@ == r_pi() * 2real { unimplemented!() }
+}
+// `Float::sqrt(x)` path form
+pub struct Float {}
+impl Float { #[verifier::external_body] pub fn sqrt(x: Sc) -> (r: Sc) ensures r@ == r_sqrt(x@) { unimplemented!() } }
 // ---- rule R9: panic entry points
 #[verifier::external_body] pub fn vpanic() -> ! requires false { loop {} }
 #[verifier::external_body] pub fn diverge() -> ! ensures false { loop {} }
